@@ -258,6 +258,9 @@ pub fn run_crash(prop: &PropDef, spec: &RunSpec, workdir: &Path, index: u64) -> 
     let mut e = Engine::new(spec.clone(), root.clone(), opts, None);
     let mut windows: Vec<OpWindow> = Vec::new();
     let mut evaluations = 0u64;
+    // model before op i (index i) and after the last op (index n): used to continue the
+    // history on a recovered crash image
+    let mut models: Vec<crate::model::Model> = Vec::new();
 
     let outcome = std::panic::catch_unwind(std::panic::AssertUnwindSafe(
         || -> Result<(), Violation> {
@@ -276,6 +279,7 @@ pub fn run_crash(prop: &PropDef, spec: &RunSpec, workdir: &Path, index: u64) -> 
             });
             let ops = e.spec.ops.clone();
             for (i, op) in ops.iter().enumerate() {
+                models.push(e.model.clone());
                 let before = e.model.durable_view();
                 let mut allowed = vec![before.clone()];
                 if let Op::Ingest { items, mid, .. } = op {
@@ -319,6 +323,7 @@ pub fn run_crash(prop: &PropDef, spec: &RunSpec, workdir: &Path, index: u64) -> 
                     });
                 }
             }
+            models.push(e.model.clone());
             Ok(())
         },
     ));
@@ -497,6 +502,99 @@ pub fn run_crash(prop: &PropDef, spec: &RunSpec, workdir: &Path, index: u64) -> 
             stats.counters.insert("failing_k".into(), k as u64);
             stats.log.push(format!("FAIL k={k} mode={} seed={seed_part}", mode_name(mode)));
             break;
+        }
+    }
+    // One crash per run is followed through: the rest of the history is executed on the
+    // recovered directory with every oracle armed ("it can immediately be written, flushed and
+    // compacted again").
+    if result.is_ok() && plan.explicit.is_empty() && !windows.is_empty() && models.len() == spec.ops.len() + 1 {
+        let w = &windows[rng.usize(windows.len())];
+        if w.op_idx != usize::MAX && w.j_end > w.j_begin {
+            let k = w.j_begin + 1 + rng.usize(w.j_end - w.j_begin);
+            let mode = match rng.below(3) {
+                0 => CrashMode::Strict,
+                1 => CrashMode::Lucky,
+                _ => CrashMode::Random(rng.next_u64()),
+            };
+            let (img, _) = simfs::crash_image(&journal, k, mode);
+            let dir = workdir.join("cont");
+            let _ = std::fs::remove_dir_all(&dir);
+            let root2 = dir.join("t");
+            simfs::materialize(&img, root2.to_str().unwrap());
+            let i = w.op_idx;
+            let r = std::panic::catch_unwind(std::panic::AssertUnwindSafe(|| -> Result<(), Violation> {
+                let opts = EngineOpts {
+                    decisive: prop.decisive.iter().map(|s| (*s).to_string()).collect(),
+                    full_checks: true,
+                    final_reclaim_phase: false,
+                };
+                let mut e2 = Engine::new(spec.clone(), root2.clone(), opts, None);
+                e2.open()?;
+                let got = e2.dump(u64::MAX)?;
+                // which of the acceptable states did recovery produce?
+                let mut before_m = models[i].clone();
+                before_m.lose_memtables();
+                let mut after_m = models[i + 1].clone();
+                after_m.lose_memtables();
+                let (model, from) = if got == after_m.durable_view() && k == w.j_end {
+                    (after_m, i + 1)
+                } else if got == before_m.durable_view() {
+                    (before_m, i)
+                } else if got == after_m.durable_view() {
+                    (after_m, i + 1)
+                } else {
+                    // an intermediate state (ingestion) or a mismatch that the image check above
+                    // has already judged: nothing to continue from
+                    return Ok(());
+                };
+                e2.model = model;
+                let next = e2.tree().get_highest_seqno().map_or(0, |h| h + 1);
+                e2.seqno.set(next);
+                e2.visible.set(next);
+                e2.model.tick();
+                let present = crate::audit::audit_tree(e2.tree()).present_pairs();
+                e2.model.resync_physical(|_| true, &present);
+                e2.check_reads()?;
+                for op in &spec.ops[from..] {
+                    e2.step(op)?;
+                }
+                e2.step(&Op::Reopen)?;
+                std::mem::forget(e2);
+                Ok(())
+            }));
+            stats.inc("crash_histories_continued_after_recovery");
+            match r {
+                Ok(Ok(())) => {}
+                Ok(Err(v)) if v.tag == "structure" || v.tag == "gc_stats" || v.tag == "seqno" || v.tag == "files" => {
+                    stats.inc(&format!("obs:{} ({})", v.class, v.tag));
+                }
+                Ok(Err(v)) => {
+                    let seed_part = match mode {
+                        CrashMode::Random(s) => s,
+                        _ => 0,
+                    };
+                    result = Err(Violation {
+                        tag: "crash".into(),
+                        class: format!("crash/continued-after-recovery/{}", v.class),
+                        msg: format!(
+                            "after a crash at journal event {k} ({mode:?}; during {} (op #{i})) and recovery, continuing the history fails: {}",
+                            w.name, v.msg
+                        ),
+                        at_op: v.at_op,
+                    });
+                    stats.log.push(format!("FAILCONT k={k} mode={} seed={seed_part}", mode_name(mode)));
+                }
+                Err(_) => {
+                    let msg = crate::runner::take_panic_msg();
+                    result = Err(Violation {
+                        tag: "crash".into(),
+                        class: format!("crash/continued-after-recovery/{}", crate::runner::panic_class(&msg)),
+                        msg: format!("after a crash at journal event {k} ({mode:?}) and recovery, continuing the history panics: {msg}"),
+                        at_op: i,
+                    });
+                }
+            }
+            let _ = std::fs::remove_dir_all(&dir);
         }
     }
     stats.add("probe_leftover_tmp_files", TMP_LEFTOVERS.with(std::cell::Cell::get));
